@@ -87,6 +87,18 @@ def apply_inject(M, api):
         M.s[api[1]] = api[2]
         M.thumb = bool((M.s['cpsr'] >> 5) & 1)
         return True
+    if isinstance(api, (list, tuple)) and api and api[0] == 'hub':
+        if api[1] == 'swap':
+            (b1, e1_, a1), (b2, e2_, a2) = M.mem[api[2]], M.mem[api[3]]
+            M.mem[api[2]], M.mem[api[3]] = (b2, e2_, a1), (b1, e1_, a2)
+        elif api[1] == 'move':
+            b1, e1_, a1 = M.mem[api[2]]
+            M.mem[api[2]] = (api[3], api[3] + (e1_ - b1), a1)
+        elif api[1] == 'pop':
+            M.mem.pop()
+        else:
+            return False
+        return True
     if api in ('swap_registers', 'swap_cpsr'):
         return True                 # a register file replaced by a deep copy of itself is the same register file
     if api == 'take_data_abort':
@@ -121,6 +133,7 @@ def run(case, stop_on=('unpred', 'skip'), quirks=()):
     for i, post in enumerate(posts):
         res.step = i
         api = inject.get(str(i))
+        mems_prev = [(b_, e_ - b_) for b_, e_, _a in M.mem]         # (the map as it was before an injected change of it)
         if api:
             # what the embedder did before this step (e1.run made the same call on the instance)
             if not apply_inject(M, api):
@@ -154,13 +167,13 @@ def run(case, stop_on=('unpred', 'skip'), quirks=()):
                 elif i + 1 < len(posts) and any(int(k_) > i for k_ in inject):
                     # the embedder caught the error and carries on with this instance (an interrupt is delivered next): the state is what it was
                     # (fault registers excepted): the reference goes on from armulator's snapshot
-                    M = Machine(post, [tuple(m) for m in case['mems']], cfg, case.get('hooked', False))
+                    M = Machine(post, [(b_, e_ - b_) for b_, e_, _a in M.mem], cfg, case.get('hooked', False))
                     M.quirks = frozenset(quirks)
                     res.M = M
                     prev = post
                     continue
             elif excs[i] is None:
-                M2 = Machine(prev, [tuple(m) for m in case['mems']], cfg, case.get('hooked', False))
+                M2 = Machine(prev, mems_prev, cfg, case.get('hooked', False))
                 if api:
                     apply_inject(M2, api)
                 M2.take_undef()
